@@ -102,7 +102,7 @@ func c09Driver(maxN, hostMaxN int) func(c *explore.Chooser) *c09Case {
 		}
 		if cs.naming == 0 && cs.host == 0 && cs.n <= hostMaxN {
 			// the type of the target comes from an annotation or from inference (call result, let-bound value)
-			cs.target = c.Choose(4)
+			cs.target = c.Choose(6)
 		}
 		covered := map[int]bool{}
 		for _, a := range cs.arms {
@@ -187,6 +187,12 @@ func c09Render(cs *c09Case, suffix string) string {
 			fmt.Fprintf(&sb, "let %s (u:%s) =\n  let v = %s\n  match v with\n%s", fn, un, ctor0, arms("  ", false))
 		case 3:
 			fmt.Fprintf(&sb, "let %s (i:int) =\n  let v = %s\n  match v with\n%s", fn, ctor0, arms("  ", false))
+		case 4:
+			// the target's type is not known where the match is parsed (un-annotated lambda parameter)
+			fmt.Fprintf(&sb, "let %s (us:[]%s) =\n  us |> slice.Map (fun v ->\n    match v with\n%s    )\n", fn, un, arms("    ", false))
+		case 5:
+			// the target is the result of a generic library call
+			fmt.Fprintf(&sb, "let %s (us:[]%s) =\n  match slice.Head us with\n%s", fn, un, arms("  ", false))
 		}
 	case 1:
 		fmt.Fprintf(&sb, "let %s (u:%s) =\n  if 1 < 2 then\n    match u with\n%s  else\n    0\n", fn, un, arms("    ", false))
@@ -467,7 +473,7 @@ func c09RunOne(c *core.Ctx, fc, foi, dir string, cs *c09Case) bool {
 	os.Remove(filepath.Join(dir, "gen_t2.go"))
 	os.WriteFile(filepath.Join(dir, "t.fo"), []byte(cs.src), 0o644)
 	args := []string{"t.fo"}
-	if cs.host == 5 {
+	if cs.host == 5 || cs.target >= 4 {
 		args = []string{foi, "t.fo"}
 	}
 	if cs.src2 != "" {
@@ -503,6 +509,24 @@ func c09RunOne(c *core.Ctx, fc, foi, dir string, cs *c09Case) bool {
 	if r.TimedOut {
 		c.Outcome("hang")
 		c.Violation("C09:hang", "fc did not terminate on a match program", rep("timeout"))
+		return false
+	}
+	if cs.target >= 4 {
+		// the type of the target is not evident where the match is written: fc may refuse such a match altogether
+		// (outside the documented subset).  What the property still demands: an incomplete default-less match
+		// is never ACCEPTED.
+		switch {
+		case r.Exit != 0 && !genExists:
+			c.Outcome("target-type-not-evident:rejected")
+		case r.Exit == 0 && genExists && cs.accept:
+			c.Outcome("target-type-not-evident:accepted-complete")
+		case r.Exit == 0 && !cs.accept:
+			c.Outcome("wrongly-accepted")
+			c.Violation(fmt.Sprintf("C09:wrongly-accepted:target%d", cs.target), fmt.Sprintf("a match without default that omits %v was accepted (target whose type is inferred)", cs.uncovered), rep(fmt.Sprintf("exit=0 gen=%v", genExists)))
+		default:
+			c.Outcome("inconsistent-exit-and-output")
+			c.Violation("C09:inconsistent", fmt.Sprintf("exit=%d but output exists=%v", r.Exit, genExists), rep(r.Out()))
+		}
 		return false
 	}
 	if cs.accept {
